@@ -14,7 +14,7 @@ def conc_cfg(share, ops, dev="{}", g="{g1, g2, g3}"):
   Dev = %s
   MaxHist = 3
 SPECIFICATION Spec
-INVARIANTS NoConflict InputUnchanged Isolated FlagStringDeterministic
+INVARIANTS NoConflict InputUnchanged Isolated FlagStringDeterministic ActionStringDeterministic
 CHECK_DEADLOCK FALSE
 """ % (g, share, dev)
 
@@ -93,8 +93,11 @@ def check(ctx, replay=None):
             viol(v, "concurrent run")
     # 4. across processes
     digs = set()
-    for k in range(16 if th else 4):
-        rc, rep, races, err = run_json(ctx, [plain if k % 2 else race_bin, "-mode", "digest"])
+    # a choice that is made once per process (a table built from a map at initialisation) shows only across processes: with a
+    # bias of 1:7 between two outcomes, 48 processes all agree with probability 0.002
+    nproc = 400 if th else 48
+    for k in range(nproc):
+        rc, rep, races, err = run_json(ctx, [plain if k % 8 else race_bin, "-mode", "digest"])
         if rep is None:
             raise vlib.Machinery("detrace digest failed: " + err[-1500:])
         digs.add(rep["digest"])
@@ -105,6 +108,6 @@ def check(ctx, replay=None):
     ctx.sample({"histories": hists[:3], "digest": sorted(digs)[0]})
     ctx.cov["rule"] = ("sequential: every call history of at most %d calls over two policy values (Assemble, Dump, GetInfo, text forms) generated by Conc.tla; concurrent: 16 ungated "
                        "goroutines x 4 sharing configurations (distinct values, copies sharing Syscalls, shared Names, shared Conditions) in a -race binary; "
-                       "digests of compilations for 4 architectures, text forms and lookups across fresh processes; non-trivial = history compiles at least twice" % (4 if th else 3))
+                       "digests of compilations for 4 architectures, text forms and lookups across %d fresh processes; non-trivial = history compiles at least twice" % (4 if th else 3, nproc))
     ctx.assumptions += ["the TLA+ footprint model cannot observe Go memory accesses; the race detector is the recorder of the real footprints and only sees paths the run executes",
                         "concurrent compilation of the SAME policy value is outside the statement (Assemble caches the architecture in the receiver)"]
